@@ -94,6 +94,12 @@ let parse_apro_tree (tree:string) : (z list -> pmeta option) =
 
 let fuel = nat_of_int 40
 
+(* `declared a apropos` (hypothesis of C13_perm_invariant / C12's sorted pipeline),
+   evaluated for the lookup of this case's port tree: when it does not hold the
+   output line is marked, so the case shows up as a disagreement *)
+let decl_mark (a:port list) (ap:z list -> pmeta option) : string =
+  if declared_b a ap then "" else "UNDECLARED "
+
 let run_ops (a:port list) (mops:string) (st:value list) : value list =
   if mops = "-" then st else
     List.fold_left (fun st o ->
@@ -146,7 +152,7 @@ let () = each_line (fun line ->
       (match load_file ap fuel a (chars_of_string "app") f st0 with
        | None -> print_endline "NOFUEL"
        | Some (r, sb) ->
-         Printf.printf "hdr=1 lines=%s ret=%s A=%s B=%s fresh=%s\n" (show_lines ls) (z_to_string r)
+         Printf.printf "%shdr=1 lines=%s ret=%s A=%s B=%s fresh=%s\n" (decl_mark a ap) (show_lines ls) (z_to_string r)
            (dump a sa) (dump a sb) (show_lines (save_lines a st0)))
     | "perm" :: tree :: flat :: _ :: groups :: _ :: mops :: _ ->
       let a = parse_app flat in
@@ -172,7 +178,7 @@ let () = each_line (fun line ->
                   Printf.sprintf "%s@%s@%s" (z_to_string r) (if names = [] then "-" else String.concat ">" names) shown
                 | _, _ -> "NOFUEL"
               end) (split_on '/' g))) (split_on ';' groups) in
-      Printf.printf "n=%d %s\n" n (String.concat ";" gs)
+      Printf.printf "%sn=%d %s\n" (decl_mark a ap) n (String.concat ";" gs)
     | "macro" :: _ :: name :: meta :: _ -> Printf.printf "name=%s meta=%s\n" name meta
     | "rej" :: tree :: flat :: _ :: appname :: _ :: absf :: _ ->
       let a = parse_app flat in
